@@ -238,13 +238,14 @@ Proof.
   intros Hm. unfold db_merge in Hm. destruct (db_rotate d) as [d1 ev1] eqn:Hrot.
   destruct (h_open _ _ _ _) as [a0 ev3]. destruct (hf_open_new _) as [h0 ev4].
   destruct (merge_files (d_cfg d) d1 order (d_active_id d1) _) as [[d2 res] ev5] eqn:Hmf.
-  assert (Hd' : d' = d2).
-  { destruct res as [ms|er ms]; [|injection Hm as <- _ _ _; reflexivity].
-    destruct (hf_close _ _) as [h1 ev6]. destruct (h_close _ _ _) as [a1 ev7]. destruct (ms_close_older _ _) as [o1 ev8].
-    injection Hm as <- _ _ _. reflexivity. }
-  subst d'. eapply Keeps_trans; [eapply db_rotate_phys; exact Hrot|]. intros H1.
-  assert (Hc1 : d_cfg d1 = d_cfg d) by (unfold db_rotate in Hrot; destruct (h_sync _ _); destruct (h_open _ _ _ _); injection Hrot as <- _; reflexivity).
-  eapply (merge_files_phys (d_cfg d)); [|exact Hmf|exact H1]. unfold io_of. rewrite Hc1. reflexivity.
+  assert (K2 : Keeps d d2).
+  { eapply Keeps_trans; [eapply db_rotate_phys; exact Hrot|]. intros H1.
+    assert (Hc1 : d_cfg d1 = d_cfg d) by (unfold db_rotate in Hrot; destruct (h_sync _ _); destruct (h_open _ _ _ _); injection Hrot as <- _; reflexivity).
+    eapply (merge_files_phys (d_cfg d)); [|exact Hmf|exact H1]. unfold io_of. rewrite Hc1. reflexivity. }
+  destruct res as [ms|er ms]; [|injection Hm as <- _ _ _; exact K2].
+  destruct (hf_close _ _) as [h1 ev6]. destruct (h_close _ _ _) as [a1 ev7]. destruct (ms_close_older _ _) as [o1 ev8].
+  destruct (db_sync d2) as [d3 evS] eqn:Hsy.
+  injection Hm as <- _ _ _. eapply Keeps_trans; [exact K2|eapply db_sync_phys; exact Hsy].
 Qed.
 
 (* Open: whatever the directory holds, the opened files satisfy the invariant *)
